@@ -47,6 +47,10 @@ let handle (f : string list) : string =
   | ["neg"; k; y] -> let k = z_of_dec k in show k (vm_neg k (z_of_dec y) garbage)
   | ["subinv"; k; x; y] -> let k = z_of_dec k in show k (vm_subinv k (z_of_dec x) (z_of_dec y) garbage)
   | ["convert"; ks; kd; x] -> let kd = z_of_dec kd in show kd (vm_convert (z_of_dec ks) kd (z_of_dec x))
+  | ["cmp"; c; k; x; y] ->
+    let c = (match c with "Ceq" -> Ceq | "Cne" -> Cne | "Clt" -> Clt | "Cle" -> Cle | "Cgt" -> Cgt | "Cge" -> Cge | _ -> failwith "cmp") in
+    (match vm_cmp c (z_of_dec k) (z_of_dec x) (z_of_dec y) with
+     | Some (Some b) -> "ok:" ^ bool_s b | Some None -> "panic" | None -> "no-instruction")
   | ["gospec"; op; k; x; y] ->
     (match kind_ity (z_of_dec k) with
      | Some t -> (match bin (binop_of op) t (z_of_dec x) (z_of_dec y) with Some v -> "ok:" ^ dec_of_z v | None -> "panic")
